@@ -3,6 +3,7 @@ package rules
 import (
 	"fmt"
 	"go/token"
+	"go/types"
 	"strings"
 
 	"golang.org/x/tools/go/ssa"
@@ -73,7 +74,7 @@ func init() {
 			"C05-R1 every range over a map is collect-then-sort on a total key order or has a commutative body; " +
 			"C05-R2 comparators used for that sort are total on the map key (a sort on the value alone keeps map order among ties); " +
 			"C05-R3 time.Now/rand/pid/go/select occur only at the sites of a two-line allowed table; " +
-			"C05-R4 no package-level variable or map is written outside init functions (no state survives from one reporter or run to the next).",
+			"C05-R4 no package-level variable or map is written outside init functions, and what a package-level map, slice or pointer refers to is not changed either (no element stored, no entry set or deleted, not handed to code of the tree that does so, not handed out by a return): no state survives from one reporter or run to the next.",
 		NotDecided: "determinism of third-party code (text/template, encoding/csv, gcfg, urfave/cli are trusted), byte equality of two outputs",
 		Assumptions: []string{
 			"sort.Strings/sort.Sort/sort.Slice* are deterministic functions of their input sequence",
@@ -145,9 +146,105 @@ func ruleGlobalState(c *core.Ctx, rule string) {
 			}
 		}
 	}
-	if n == 0 {
-		c.Discharge(rule, "repository", "no-global-writes", "-", "no store to a package-level variable and no update of a package-level map outside init functions")
+	// a package-level map, slice or pointer is only read: what it refers to is not changed, handed to code of the
+	// tree that changes it, or handed out
+	for _, fn := range c.P.Funcs {
+		if fn.Name() == "init" || strings.HasPrefix(fn.Name(), "init#") {
+			continue
+		}
+		for _, b := range fn.Blocks {
+			for _, in := range b.Instrs {
+				ld, ok := in.(*ssa.UnOp)
+				if !ok || ld.Op != token.MUL {
+					continue
+				}
+				g, ok := ld.X.(*ssa.Global)
+				if !ok || g.Pkg == nil || !(strings.HasPrefix(g.Pkg.Pkg.Path(), core.LibPath) || strings.HasPrefix(g.Pkg.Pkg.Path(), core.CmdPath) || strings.HasPrefix(g.Pkg.Pkg.Path(), "canary/")) {
+					continue
+				}
+				switch ld.Type().Underlying().(type) {
+				case *types.Map, *types.Slice, *types.Pointer:
+				default:
+					continue
+				}
+				if why := mutatedThrough(c.P, ld, 0); why != "" {
+					n++
+					c.Violate(rule, core.FuncName(fn), "global "+g.Name(), c.P.Pos(ld.Pos()), "what the package-level variable "+g.Name()+" refers to is changed while a command runs ("+why+"): it survives from one use to the next, so what is printed depends on what was processed before", nil)
+				}
+			}
+		}
 	}
+	if n == 0 {
+		c.Discharge(rule, "repository", "no-global-writes", "-", "no store to a package-level variable, no update of a package-level map and no change of what a package-level map, slice or pointer refers to outside init functions")
+	}
+}
+
+// mutatedThrough: how the memory the reference value v refers to may be changed by what is done with v ("" if it
+// is only read): an element or field stored into, a map entry set or deleted, handed to a function of the tree that
+// does so with its parameter, or returned to callers unknown.
+func mutatedThrough(p *core.Program, v ssa.Value, depth int) string {
+	if depth > 5 || v.Referrers() == nil {
+		return ""
+	}
+	for _, r := range *v.Referrers() {
+		switch t := r.(type) {
+		case *ssa.DebugRef, *ssa.If, *ssa.Lookup, *ssa.Index:
+		case *ssa.BinOp:
+		case *ssa.MapUpdate:
+			if t.Map == v {
+				return "a map entry is set at " + p.Pos(t.Pos())
+			}
+		case *ssa.Store:
+			if t.Addr == v {
+				return "stored through at " + p.Pos(t.Pos())
+			}
+			return "kept in another variable at " + p.Pos(t.Pos())
+		case *ssa.IndexAddr, *ssa.FieldAddr, *ssa.Phi, *ssa.Slice, *ssa.ChangeType, *ssa.Range, *ssa.Next, *ssa.Extract, *ssa.MakeInterface:
+			if w := mutatedThrough(p, r.(ssa.Value), depth+1); w != "" {
+				return w
+			}
+		case *ssa.UnOp:
+			// a load through the pointer: a copy of a value, or another reference (an element that is a slice or map)
+			switch t.Type().Underlying().(type) {
+			case *types.Map, *types.Slice, *types.Pointer:
+				if w := mutatedThrough(p, t, depth+1); w != "" {
+					return w
+				}
+			}
+		case *ssa.Return:
+			return "handed out by a return at " + p.Pos(t.Pos())
+		case ssa.CallInstruction:
+			cc := t.Common()
+			if b, ok := cc.Value.(*ssa.Builtin); ok {
+				switch b.Name() {
+				case "len", "cap":
+					continue
+				case "delete":
+					return "an entry is deleted at " + p.Pos(t.Pos())
+				case "append", "copy":
+					if len(cc.Args) > 0 && cc.Args[0] == v {
+						return b.Name() + " at " + p.Pos(t.Pos())
+					}
+					continue
+				}
+			}
+			cal := core.Callee(cc)
+			if cal == nil || !p.InScope(cal) {
+				continue // code outside the tree (regexp, text/template): taken to read only
+			}
+			for i, a := range cc.Args {
+				if a != v || i >= len(cal.Params) {
+					continue
+				}
+				if w := mutatedThrough(p, cal.Params[i], depth+1); w != "" {
+					return "handed to " + core.FuncName(cal) + ": " + w
+				}
+			}
+		default:
+			return ""
+		}
+	}
+	return ""
 }
 
 // constDerived: v is computed from compile-time constants only (through calls,
@@ -286,6 +383,36 @@ func clockOnlyToMetadata(p *core.Program, fn *ssa.Function, v ssa.Value, depth i
 			uses++
 		case *ssa.MakeInterface, *ssa.ChangeType, *ssa.Phi, *ssa.Extract:
 			if !clockOnlyToMetadata(p, fn, t.(ssa.Value), depth+1) {
+				return false
+			}
+			uses++
+		case *ssa.Call:
+			cal := core.Callee(&t.Call)
+			if cal == nil {
+				return false
+			}
+			switch {
+			case cal.String() == "(time.Time).Local" || cal.String() == "(time.Time).UTC" || cal.String() == "(time.Time).In":
+				// the same instant in another zone: still the clock
+				if !clockOnlyToMetadata(p, fn, t, depth+1) {
+					return false
+				}
+			case p.InScope(cal):
+				// handed to a function of the tree (NewDefaultGlobalConfigAt(now)): what that does with its parameter,
+				// and with a structure it builds around it
+				ok := false
+				for i, a := range t.Call.Args {
+					if a == v && i < len(cal.Params) {
+						if !clockOnlyToMetadata(p, cal, cal.Params[i], depth+1) {
+							return false
+						}
+						ok = true
+					}
+				}
+				if !ok {
+					return false
+				}
+			default:
 				return false
 			}
 			uses++
